@@ -176,14 +176,19 @@ impl Builder {
                 // append to the most recently opened file (or a never-issued handle if none)
                 let f = choose(&self.open, true).unwrap_or(900 + k);
                 let mut d = self.data(k);
+                let mut sched = Sched::Full;
                 if let Some(r) = rng {
                     let n = *r.pick(&[0usize, 1, 3, 8, 33, 129, 300]);
                     d = d.with_len(n.max(usize::from(sym == 9)));
+                    // one sampled append in three reads its source in several short reads (legal for any Read)
+                    if r.chance(1, 3) {
+                        sched = Sched::make(r, false);
+                    }
                 }
                 let src = match sym {
-                    8 => Src::exact(),
-                    9 => Src { sched: Sched::Full, short_by: 1 + k % d.len().max(1), extra: 0, stream: false },
-                    _ => Src { sched: Sched::Full, short_by: 0, extra: 1 + k % 4, stream: false },
+                    8 => Src { sched: sched.clone(), short_by: 0, extra: 0, stream: false },
+                    9 => Src { sched: sched.clone(), short_by: 1 + k % d.len().max(1), extra: 0, stream: false },
+                    _ => Src { sched, short_by: 0, extra: 1 + k % 4, stream: false },
                 };
                 self.ops.push(WOp::Append { f, data: d, src });
             }
@@ -244,7 +249,7 @@ impl Prop for C09 {
         "exploration"
     }
     fn rule(&self) -> String {
-        "run = one writer call sequence over a 19-symbol alphabet {start(fresh | duplicate | empty | 65536-byte | 65537-byte name), add(fresh | duplicate | 65537-byte name), append(to the most recently opened file from an exact | short | longer source; to the oldest open file; to an ended file; to a never-issued id), end(open | ended | never-issued id), flush, finalize}. ALL sequences of length 1..3 (quick) / 1..4 (thorough) are enumerated on the s0 build without layers; then 132 runs with ONE append whose source ends exactly on j x 2^e bytes (e = 12..22, j = 1..3; production constants, all layer sets) while 1 byte, half a unit, a unit or several units more were announced - the edge of whatever copy buffer lies on the path; the remaining runs are seeded sequences of length 5..40 on all variants and layer sets with seeded piece sizes, in which 'duplicate', 'open' and 'ended' mean ANY earlier name / open file / ended file two times in three (the most recent one otherwise). A model interprets the sequence: which calls must be refused (duplicate or over-long name, file not open, anything after finalize, finalize with open files), what the archive described by the accepted calls is. Oracle: the library refuses exactly those calls; a short source is never Ok; afterwards the harness ends the open files and finalizes, and the archive must read back to the model that ignored the refused calls (listing, sizes, bytes, hashes), repair of it must give the same files and linear extraction must agree; on the hook variants (randomness pinned) the archive must also be BYTE-IDENTICAL to the one written from the accepted calls only. After a short source the archive counts as poisoned: only no-panic is demanded. distinct_nontrivial = distinct (variant, layers, multiset of (symbol, outcome) pairs, final state) signatures.".into()
+        "run = one writer call sequence over a 19-symbol alphabet {start(fresh | duplicate | empty | 65536-byte | 65537-byte name), add(fresh | duplicate | 65537-byte name), append(to the most recently opened file from an exact | short | longer source; to the oldest open file; to an ended file; to a never-issued id), end(open | ended | never-issued id), flush, finalize}. ALL sequences of length 1..3 (quick) / 1..4 (thorough) are enumerated on the s0 build without layers; then 132 runs with ONE append whose source ends exactly on j x 2^e bytes (e = 12..22, j = 1..3; production constants, all layer sets) while 1 byte, half a unit, a unit or several units more were announced - the edge of whatever copy buffer lies on the path; the remaining runs are seeded sequences of length 5..40 on all variants and layer sets with seeded piece sizes (one append in three from a source that returns short reads), in which 'duplicate', 'open' and 'ended' mean ANY earlier name / open file / ended file two times in three (the most recent one otherwise). A model interprets the sequence: which calls must be refused (duplicate or over-long name, file not open, anything after finalize, finalize with open files), what the archive described by the accepted calls is. Oracle: the library refuses exactly those calls; a short source is never Ok; afterwards the harness ends the open files and finalizes, and the archive must read back to the model that ignored the refused calls (listing, sizes, bytes, hashes), repair of it must give the same files and linear extraction must agree; on the hook variants (randomness pinned) the archive must also be BYTE-IDENTICAL to the one written from the accepted calls only. After a short source the archive counts as poisoned: only no-panic is demanded. distinct_nontrivial = distinct (variant, layers, multiset of (symbol, outcome) pairs, final state) signatures.".into()
     }
     fn assumptions(&self) -> Vec<String> {
         vec!["a source longer than announced is legal (the first `size` bytes are kept); flush after finalize is not a refused call".into()]
